@@ -505,8 +505,9 @@ def fam_resume(rnd, n):
         zero = i % 9 == 8      # WithMaxLastUpdate(0): whatever is Running is older than the maximum
         members = []
         for _ in range(rnd.choice([2, 3, 3, 4])):
-            kind = rnd.choice(["plain", "fail", "checks", "cont", "conc"])
+            kind = rnd.choice(["plain", "fail", "checks", "cont", "conc", "contfail"])
             pg, bg, out = {}, {}, {}
+            kwhen, lat = "", {}
             ns, conc = 2, 1
             if kind == "fail":
                 out["b1.s%d.a%d" % (rnd.randint(1, 2), rnd.randint(1, 2))] = ["perm"]
@@ -517,6 +518,13 @@ def fam_resume(rnd, n):
                 pg = {"cont": 1}
             elif kind == "conc":
                 ns, conc = 3, 2
+            elif kind == "contfail":
+                # a block fails while its own / the plan's continuous checks are in the middle of a run
+                bg = rnd.choice([{"cont": 1}, {"cont": 1, "deferred": 1}])
+                pg = rnd.choice([{}, {"cont": 1}])
+                out["b1.s%d.a1" % rnd.randint(1, 2)] = ["perm"]
+                lat = {"b1.cont.a1": [1500], "p.cont.a1": [1500]}
+                kwhen = "blkfailed-chkrunning"
             sh = shape([blk([2] * ns, conc, 0, g=bg), blk([1])], pg=pg)
             kpct = rnd.choice([0, 100, 100, 15, 30, 45, 60, 75, 90])
             ages = rnd.choice([0, maxage - 2, maxage - 1, maxage + 1, maxage + 2, maxage * 3, 5])
@@ -525,9 +533,26 @@ def fam_resume(rnd, n):
                 mode = "notchk"     # only the Checks objects and their actions carry recent stamps
                 kpct = rnd.choice([30, 45, 60, 75, 90])
                 ages = rnd.choice([maxage + 2, maxage * 3])
-            members.append({"shape": sh, "out": out, "kpct": kpct, "ages": ages, "agemode": mode})
+            if kwhen:
+                kpct, mode = rnd.choice([60, 75, 90]), ""
+                ages = rnd.choice([maxage + 2, maxage * 3, maxage * 3, 0])
+            members.append({"shape": sh, "out": out, "kpct": kpct, "ages": ages, "agemode": mode, "kwhen": kwhen, "lat": lat})
         res.append({"kind": "resume", "shape": members[0]["shape"], "mode": "free", "out": {}, "members": members, "norecovery": rnd.random() < 0.25,
                     "maxages": -1 if zero else maxage, "tag": "resume-zero" if zero else "resume", "latmax": 100, "contdelay": 300})
+    return res
+
+
+def fam_resume_many(rnd, n):
+    """Stores holding 3-5 plans that are ALL Running at the restart (recovery has to find, read and resume every one
+    of them, and come back)."""
+    res = []
+    for i in range(n):
+        members = []
+        for _ in range(rnd.choice([3, 4, 5])):
+            sh = shape([blk([rnd.choice([1, 2])] * rnd.choice([1, 2]), 1, 0), blk([1])], pg=rnd.choice([{}, {}, {"pre": 1}]))
+            members.append({"shape": sh, "out": {}, "kpct": rnd.choice([20, 35, 50, 65, 80]), "ages": 0, "agemode": ""})
+        res.append({"kind": "resume", "shape": members[0]["shape"], "mode": "free", "out": {}, "members": members, "norecovery": False,
+                    "maxages": 1800, "tag": "resume-many", "latmax": 100, "contdelay": 300})
     return res
 
 
@@ -607,6 +632,25 @@ def fam_crash_contfail(rnd, n):
         k = rnd.choice([1, 2, 3])      # passing runs before the failing one (the initial run passes)
         out = {"%s.cont.a1" % lvl: ["ok"] * k + ["perm"]}
         res.append(scn(sh, "free", out, lat=lat, crash="sample", crashmax=14, fn=False, tag="crash-contfail", contdelay=rnd.choice([300, 800]), latmax=100, waitms=8000))
+    return res
+
+
+def fam_crash_prefail_cont(rnd, n):
+    """Every crash point of plans whose PreChecks fail while the initial run of the ContChecks of the same scope (they
+    run side by side) is still in progress, at plan or at block level: a crash may find the failed PreChecks durable and
+    the ContChecks - group and action - durably Running."""
+    res = []
+    for i in range(n):
+        lvl = rnd.choice(["p", "b1"])
+        g = {"pre": 1, "cont": 1}
+        if rnd.random() < 0.5:
+            g["deferred"] = 1
+        pg = g if lvl == "p" else rnd.choice([{}, {"deferred": 1}])
+        bg = g if lvl == "b1" else {}
+        sh = shape([blk([1] * rnd.choice([1, 2]), conc=1, tol=0, g=bg)] + ([blk([1])] if rnd.random() < 0.5 else []), pg=pg)
+        out = {"%s.pre.a1" % lvl: ["perm"]}
+        lat = {"%s.cont.a1" % lvl: [rnd.choice([2000, 4000])], "%s.pre.a1" % lvl: [rnd.choice([0, 200])]}
+        res.append(scn(sh, "free", out, lat=lat, crash="all", fn=True, tag="crash-prefail-cont", contdelay=300, latmax=100, waitms=8000))
     return res
 
 
